@@ -58,10 +58,10 @@ import (
 )
 
 const (
-	l3Chunk          = 50000
+	l3Chunk           = 50000
 	l3DefaultPrefetch = 500000 // cfg.PrefetchSize: far (>> 3 chunks) from every label value used below
 	l3Files           = 24
-	l3MaxFile         = 45000  // < 1 chunk: prefetch also caches every FILE that starts inside the range, i.e. reads up to one file beyond it
+	l3MaxFile         = 45000 // < 1 chunk: prefetch also caches every FILE that starts inside the range, i.e. reads up to one file beyond it
 )
 
 func l3Stage(r *vf.Run) {
@@ -352,7 +352,8 @@ func l3Mount(r *vf.Run, reg *memReg, tocOffs map[string]int64, fl *flavour, m *m
 	_ = os.MkdirAll(mp, 0o755)
 	cfg := config.Config{
 		NoBackgroundFetch: true, NoPrometheus: true, PrefetchSize: l3DefaultPrefetch,
-		BlobConfig: config.BlobConfig{ChunkSize: l3Chunk, ForceSingleRangeMode: true, MaxRetries: 1, MinWaitMSec: 1, MaxWaitMSec: 5},
+		PrefetchTimeoutSec: 3600, // Check must return on prefetch COMPLETION, never on its timeout (the verdict is decided on state)
+		BlobConfig:         config.BlobConfig{ChunkSize: l3Chunk, ForceSingleRangeMode: true, MaxRetries: 1, MinWaitMSec: 1, MaxWaitMSec: 5},
 	}
 	fsys, err := stargzfs.NewFilesystem(root, cfg, stargzfs.WithGetSources(fl.reader(hosts)))
 	if err != nil {
@@ -456,7 +457,7 @@ func l3Mount(r *vf.Run, reg *memReg, tocOffs map[string]int64, fl *flavour, m *m
 		p = 0
 	}
 	u := union(iv)
-	winLo := (p+l3Chunk-1)/l3Chunk*l3Chunk + 3*l3Chunk // chunk rounding + the tail of the last file starting inside the range (< 1 chunk, itself chunk-rounded)
+	winLo := (p+l3Chunk-1)/l3Chunk*l3Chunk + 3*l3Chunk              // chunk rounding + the tail of the last file starting inside the range (< 1 chunk, itself chunk-rounded)
 	winHi := tocOffs[target.Dig.String()]/l3Chunk*l3Chunk - l3Chunk // resolving reads footer and TOC (chunk-aligned) at the end of the blob
 	ranges := fmt.Sprint(u)
 	if !covers(u, 0, p) {
